@@ -777,5 +777,245 @@ theorem trun_resultInv (ops : List TOp) (a b : TState) (h : trun a ops = some b)
     · rename_i a' ob hst; exact ih a' h (tstep_resultInv a a' o ob hst hi)
     · cases h
 
+/-! ### Thread trees -/
+
+/-- what one enabled step of the thread tree does, both variants -/
+theorem nstepWith_not_chan_chans (b : Bool) (s s1 : Net) (o : NOp) (ob : NObs)
+    (h : nstepWith b s o = some (s1, ob)) (hn : ∀ k op, o ≠ .chan k op) : s1.chans = s.chans := by
+  cases o with
+  | chan k op => exact absurd rfl (hn k op)
+  | spawn p =>
+    simp only [nstepWith] at h
+    split at h
+    · split at h <;> (simp only [Option.some.injEq, Prod.mk.injEq] at h; rw [← h.1])
+    · cases h
+  | ret t =>
+    simp only [nstepWith] at h
+    split at h
+    · split at h <;> (simp only [Option.some.injEq, Prod.mk.injEq] at h; rw [← h.1])
+    · cases h
+  | wait w t =>
+    simp only [nstepWith] at h
+    split at h
+    · simp only [Option.some.injEq, Prod.mk.injEq] at h; rw [← h.1]
+    · cases h
+  | abort t =>
+    simp only [nstepWith] at h
+    split at h
+    · simp only [Option.some.injEq, Prod.mk.injEq] at h; rw [← h.1]
+    · cases h
+  | cancel =>
+    simp only [nstepWith, Option.some.injEq, Prod.mk.injEq] at h; rw [← h.1]
+
+theorem nstepWith_chan_inv (b : Bool) (s s1 : Net) (k : Nat) (op : Op) (ob : NObs)
+    (h : nstepWith b s (.chan k op) = some (s1, ob)) :
+    ∃ c c' ob', s.chans[k]? = some c ∧ step c op = some (c', ob') ∧ ob = .chan ob' ∧
+      s1 = { s with chans := s.chans.set k c' } ∧ (actors op).all (live s) = true := by
+  simp only [nstepWith] at h
+  split at h
+  · rename_i hl
+    split at h
+    · rename_i c hc
+      split at h
+      · rename_i c' ob' hst
+        simp only [Option.some.injEq, Prod.mk.injEq] at h
+        exact ⟨c, c', ob', hc, hst, h.2.symm, h.1.symm, hl⟩
+      · cases h
+    · cases h
+  · cases h
+
+theorem run_cons (c : Chan) (o : Op) (os : List Op) :
+    run c (o :: os) = match step c o with
+      | some (c', _) => run c' os
+      | none => none := rfl
+
+/-- projection: along any schedule of the thread tree each channel makes exactly the steps of
+    the channel machine on the operations addressed to it -/
+theorem nrunWith_chan (b : Bool) (ops : List NOp) (s s' : Net) (h : nrunWith b s ops = some s')
+    (k : Nat) (c0 : Chan) (hk : s.chans[k]? = some c0) :
+    ∃ c, s'.chans[k]? = some c ∧ run c0 (chanOpsOf k ops) = some c := by
+  induction ops generalizing s c0 with
+  | nil =>
+    simp only [nrunWith, Option.some.injEq] at h
+    subst h
+    exact ⟨c0, hk, rfl⟩
+  | cons o os ih =>
+    simp only [nrunWith] at h
+    split at h
+    · rename_i s1 ob hst
+      cases o with
+      | chan k' op =>
+        obtain ⟨c, c', ob', hc, hstep, _, hs1, _⟩ := nstepWith_chan_inv b s s1 k' op ob hst
+        by_cases hkk : k' = k
+        · subst hkk
+          rw [hk] at hc
+          cases hc
+          have hlt : k' < s.chans.length := (List.getElem?_eq_some_iff.1 hk).1
+          have hk1 : s1.chans[k']? = some c' := by
+            rw [hs1]
+            simp [List.getElem?_set_self hlt]
+          obtain ⟨cf, hcf, hr⟩ := ih s1 h c' hk1
+          refine ⟨cf, hcf, ?_⟩
+          simp only [chanOpsOf, ↓reduceIte, run_cons, hstep]
+          exact hr
+        · have hk1 : s1.chans[k]? = some c0 := by
+            rw [hs1]
+            simp [List.getElem?_set_ne hkk, hk]
+          obtain ⟨cf, hcf, hr⟩ := ih s1 h c0 hk1
+          refine ⟨cf, hcf, ?_⟩
+          simp only [chanOpsOf, hkk, ↓reduceIte]
+          exact hr
+      | spawn p =>
+        have hc := nstepWith_not_chan_chans b s s1 _ ob hst (by intro k op; simp)
+        obtain ⟨cf, hcf, hr⟩ := ih s1 h c0 (by rw [hc]; exact hk)
+        exact ⟨cf, hcf, by simpa only [chanOpsOf] using hr⟩
+      | ret t =>
+        have hc := nstepWith_not_chan_chans b s s1 _ ob hst (by intro k op; simp)
+        obtain ⟨cf, hcf, hr⟩ := ih s1 h c0 (by rw [hc]; exact hk)
+        exact ⟨cf, hcf, by simpa only [chanOpsOf] using hr⟩
+      | wait w t =>
+        have hc := nstepWith_not_chan_chans b s s1 _ ob hst (by intro k op; simp)
+        obtain ⟨cf, hcf, hr⟩ := ih s1 h c0 (by rw [hc]; exact hk)
+        exact ⟨cf, hcf, by simpa only [chanOpsOf] using hr⟩
+      | abort t =>
+        have hc := nstepWith_not_chan_chans b s s1 _ ob hst (by intro k op; simp)
+        obtain ⟨cf, hcf, hr⟩ := ih s1 h c0 (by rw [hc]; exact hk)
+        exact ⟨cf, hcf, by simpa only [chanOpsOf] using hr⟩
+      | cancel =>
+        have hc := nstepWith_not_chan_chans b s s1 _ ob hst (by intro k op; simp)
+        obtain ⟨cf, hcf, hr⟩ := ih s1 h c0 (by rw [hc]; exact hk)
+        exact ⟨cf, hcf, by simpa only [chanOpsOf] using hr⟩
+    · cases h
+
+/-- what an enabled return does in the code as it is -/
+theorem nstep_ret_inv (s s1 : Net) (p : Nat) (ob : NObs) (h : nstep s (.ret p) = some (s1, ob)) :
+    p ≠ 0 ∧ live s p = true ∧ s1 = { s with returned := s.returned ++ [p] } := by
+  simp only [nstep, nstepWith] at h
+  split at h
+  · rename_i hg
+    simp only [Bool.false_eq_true, ↓reduceIte, Option.some.injEq, Prod.mk.injEq] at h
+    simp only [Bool.and_eq_true, bne_iff_ne, ne_eq] at hg
+    exact ⟨hg.1, hg.2, h.1.symm⟩
+  · cases h
+
+theorem live_ret_other (s : Net) (p t : Nat) (h : t ≠ p) :
+    live { s with returned := s.returned ++ [p] } t = live s t := by
+  simp [live, isReturned, h]
+
+theorem all_live_ret_other (s : Net) (p : Nat) (l : List Nat) (h : l.contains p = false) :
+    l.all (live { s with returned := s.returned ++ [p] }) = l.all (live s) := by
+  induction l with
+  | nil => rfl
+  | cons a as ih =>
+    simp only [List.contains_cons, Bool.or_eq_false_iff, beq_eq_false_iff_ne, ne_eq] at h
+    simp only [List.all_cons, ih h.2, live_ret_other s p a (fun he => h.1 he.symm)]
+
+theorem isReturned_ret_other (s : Net) (p t : Nat) (h : t ≠ p) :
+    isReturned { s with returned := s.returned ++ [p] } t = isReturned s t := by
+  simp [isReturned, h]
+
+/-- the invariant of the code as it is: every thread's context lies in the run's scope only,
+    and nothing but the run's scope is ever cancelled -/
+def CtxInv (s : Net) : Prop := (∀ c ∈ s.ctx, c = [0]) ∧ (∀ x ∈ s.cancelled, x = 0)
+
+theorem ctxOf_of_inv (s : Net) (hi : CtxInv s) (t : Nat) (ht : t < s.ctx.length) : ctxOf s t = [0] := by
+  unfold ctxOf
+  rw [List.getD_eq_getElem?_getD, List.getElem?_eq_getElem ht]
+  exact hi.1 _ (List.getElem_mem ht)
+
+theorem nstep_ctxInv (s s1 : Net) (o : NOp) (ob : NObs) (h : nstep s o = some (s1, ob)) (hi : CtxInv s) :
+    CtxInv s1 := by
+  cases o with
+  | chan k op =>
+    obtain ⟨_, _, _, _, _, _, hs1, _⟩ := nstepWith_chan_inv false s s1 k op ob h
+    rw [hs1]; exact hi
+  | spawn p =>
+    simp only [nstep, nstepWith] at h
+    split at h
+    · rename_i hl
+      simp only [Bool.false_eq_true, ↓reduceIte, Option.some.injEq, Prod.mk.injEq] at h
+      rw [← h.1]
+      simp only [live, Bool.and_eq_true, decide_eq_true_eq] at hl
+      refine ⟨?_, hi.2⟩
+      intro c hc
+      simp only [List.mem_append, List.mem_singleton] at hc
+      cases hc with
+      | inl hc => exact hi.1 c hc
+      | inr hc => rw [hc]; exact ctxOf_of_inv s hi p hl.1
+    · cases h
+  | ret t =>
+    obtain ⟨_, _, hs1⟩ := nstep_ret_inv s s1 t ob h
+    rw [hs1]; exact hi
+  | wait w t =>
+    simp only [nstep, nstepWith] at h
+    split at h
+    · simp only [Option.some.injEq, Prod.mk.injEq] at h; rw [← h.1]; exact hi
+    · cases h
+  | abort t =>
+    simp only [nstep, nstepWith] at h
+    split at h
+    · simp only [Option.some.injEq, Prod.mk.injEq] at h; rw [← h.1]; exact hi
+    · cases h
+  | cancel =>
+    simp only [nstep, nstepWith, Option.some.injEq, Prod.mk.injEq] at h
+    rw [← h.1]
+    refine ⟨hi.1, ?_⟩
+    intro x hx
+    simp only [List.mem_append, List.mem_singleton] at hx
+    cases hx with
+    | inl hx => exact hi.2 x hx
+    | inr hx => exact hx
+
+theorem nrun_ctxInv (ops : List NOp) (s s' : Net) (h : nrun s ops = some s') (hi : CtxInv s) : CtxInv s' := by
+  induction ops generalizing s with
+  | nil => simp only [nrun, nrunWith, Option.some.injEq] at h; subst h; exact hi
+  | cons o os ih =>
+    simp only [nrun, nrunWith] at h
+    split at h
+    · rename_i s1 ob hst; exact ih s1 h (nstep_ctxInv s s1 o ob hst hi)
+    · cases h
+
+theorem ninit_ctxInv (caps : List Nat) : CtxInv (ninit caps) := by
+  simp [CtxInv, ninit]
+
+/-- in the code as it is only the host's `cancel` ever cancels anything -/
+theorem nstep_cancelled (s s1 : Net) (o : NOp) (ob : NObs) (h : nstep s o = some (s1, ob)) (hn : o ≠ .cancel) :
+    s1.cancelled = s.cancelled := by
+  cases o with
+  | chan k op =>
+    obtain ⟨_, _, _, _, _, _, hs1, _⟩ := nstepWith_chan_inv false s s1 k op ob h
+    rw [hs1]
+  | spawn p =>
+    simp only [nstep, nstepWith] at h
+    split at h
+    · simp only [Bool.false_eq_true, ↓reduceIte, Option.some.injEq, Prod.mk.injEq] at h; rw [← h.1]
+    · cases h
+  | ret t =>
+    obtain ⟨_, _, hs1⟩ := nstep_ret_inv s s1 t ob h
+    rw [hs1]
+  | wait w t =>
+    simp only [nstep, nstepWith] at h
+    split at h
+    · simp only [Option.some.injEq, Prod.mk.injEq] at h; rw [← h.1]
+    · cases h
+  | abort t =>
+    simp only [nstep, nstepWith] at h
+    split at h
+    · simp only [Option.some.injEq, Prod.mk.injEq] at h; rw [← h.1]
+    · cases h
+  | cancel => exact absurd rfl hn
+
+theorem nrun_cancelled (ops : List NOp) (s s' : Net) (h : nrun s ops = some s') (hn : NOp.cancel ∉ ops) :
+    s'.cancelled = s.cancelled := by
+  induction ops generalizing s with
+  | nil => simp only [nrun, nrunWith, Option.some.injEq] at h; subst h; rfl
+  | cons o os ih =>
+    simp only [nrun, nrunWith] at h
+    simp only [List.mem_cons, not_or] at hn
+    split at h
+    · rename_i s1 ob hst
+      rw [ih s1 h hn.2]
+      exact nstep_cancelled s s1 o ob hst (fun he => hn.1 he.symm)
+    · cases h
 
 end Risor.C10
